@@ -840,7 +840,8 @@ func fixedTableLayout(box *bo.BoxFields) {
 				}
 			}
 			if len(columnsWithoutWidth) != 0 {
-				widthPerColumn := width / pr.Float(len(columnsWithoutWidth))
+				// the spacing and known widths may exceed the cell's width
+				widthPerColumn := pr.Max(0, width) / pr.Float(len(columnsWithoutWidth))
 				for _, j := range columnsWithoutWidth {
 					columnWidths[j] = widthPerColumn
 				}
